@@ -345,10 +345,12 @@ class BPTC19696:
         table = BPTC19696.make_encoding_table()
         table = BPTC19696.fill_encoding_table(table, bits)
 
+        # first all rows, only then all columns: a column pass that runs before every row had its
+        # single errors repaired sees two errors in one column and mis-corrects
         for row in range(0, table.shape[0]):
             table[row] = Hamming15113.correct_numpy_array(table[row])
-            for col in range(0, table.shape[1]):
-                table[:, col] = Hamming1393.correct_numpy_array(table[:, col])
+        for col in range(0, table.shape[1]):
+            table[:, col] = Hamming1393.correct_numpy_array(table[:, col])
 
         for data_index, (
             interleave_index,
